@@ -22,7 +22,7 @@ func runC08(c *run.Ctx) {
 		"struct types registered with RegisterType; documents with inline and named fragments conditioned on object, interface, union and unrelated types at any depth; " +
 		"oracle: reference executor with spec fragment applicability on the concrete type and __typename = concrete type; non-trivial = the document selects through an abstract-typed field " +
 		"or uses an abstract/other-type condition; distinct by (schema, document)"
-	n := c.N(1500, 50000)
+	n := c.N(3000, 50000)
 	c.MinNontriv = n / 10
 	flagsOpen := ref.Flags{StaticAbstract: c.Open("K-C08-iface-static"), CondIdentity: c.Open("K-C08-cond-identity")}
 	for i := 0; i < n && !c.TooMany(); i++ {
@@ -81,7 +81,7 @@ func runC08(c *run.Ctx) {
 	}
 	// binding by the @go directive and by name only (no RegisterType), on cold roots, suffix-related Go type names,
 	// heterogeneous lists whose first element varies, one or several documents per root
-	m := c.N(600, 20000)
+	m := c.N(1200, 20000)
 	for i := 0; i < m && !c.TooMany(); i++ {
 		r := c.Rand(1000000 + i)
 		root, ms, g, err := zoo.NewPetsRoot(i)
@@ -148,7 +148,7 @@ func (s *c08Subs) Resolve(field *ggql.Field, args map[string]interface{}) (inter
 // bound (by @go / by name) to different object types. Each message must be the subscriber's selection applied to the
 // event resolved as ITS concrete type.
 func c08Subscription(c *run.Ctx) {
-	n := c.N(200, 8000)
+	n := c.N(400, 8000)
 	for i := 0; i < n && !c.TooMany(); i++ {
 		r := c.Rand(5000000 + i)
 		ms := zoo.PetsModelV(i)
@@ -251,7 +251,7 @@ func withoutQuery(ts []*model.TypeDef) []*model.TypeDef {
 // ggql derives lazily from the hierarchy exists; then `extend type X implements Animal` and `extend union Pet = X` arrive
 // as loads of their own (no new type comes with them), and the request is judged against the reference over the final schema.
 func c08Staged(c *run.Ctx) {
-	n := c.N(200, 8000)
+	n := c.N(400, 8000)
 	for i := 0; i < n && !c.TooMany(); i++ {
 		r := c.Rand(3000000 + i)
 		full := gen.Menagerie(r)
